@@ -12,7 +12,7 @@ import (
 )
 
 func init() {
-	register("C16", "Token limit: (R1) tokens are consumed at a single point — ReadToken is called only by the look-ahead and the advance function, the current token and the look-ahead flag are rewritten only by the advance function (or a helper called only from it), and the counter has one store, +1, dominating every consumption; (R2) exactness — along every path of the advance function the branch conditions over (count, limit) imply `limit = 0 or count <= limit` at each consumption and `limit != 0 and count >= limit+1` at the limit error (interval reasoning over d = count-limit and limit), and every return follows a consumption or an error; (R3) each limited entry point stores its limit parameter into every parser it creates, forwards it to every entry point it calls, and a parser is pointed at a source only when freshly created; (R4) each limited entry point agrees with its unlimited twin on callees and stored fields; (R5) recursion depth of the parser is bounded by consumed tokens (shared with C01.R6).", runC16)
+	register("C16", "Token limit: (R1) tokens are consumed at a single point — ReadToken is called only by the look-ahead and the advance function, the current token and the look-ahead flag are rewritten only by the advance function (or a helper called only from it), and the counter has one store, +1, dominating every consumption; (R2) exactness — along every path of the advance function the branch conditions over (count, limit) imply `limit = 0 or count <= limit` at each consumption and `limit != 0 and count >= limit+1` at the limit error (interval reasoning over d = count-limit and limit), and every return follows a consumption or an error; (R3) each limited entry point stores its limit parameter into every parser it creates, forwards it to every entry point it calls, and a parser is pointed at a source only when freshly created; (R4) each limited entry point agrees with its unlimited twin on callees and stored fields; (R5) recursion depth of the parser is bounded by consumed tokens (shared with C01.R6). (R6) no branch outside the advance function and its private helpers reads the token counter or the limit.", runC16)
 }
 
 // lin is a*count_after + b*limit + k.
@@ -613,6 +613,90 @@ func runC16(c *Ctx) {
 	// --- R5 recursion bounded by consumption (shared with C01.R6)
 	r5 := c.Rule("R5", "parser recursion is bounded by consumed tokens (C01.R6)", 3)
 	parserRecursion(c, r5, m)
+
+	// --- R6 no decision outside the advance function depends on the counter or on the limit
+	r6 := c.Rule("R6", "no branch outside the advance function reads the token counter or the limit", 1)
+	nextOnly := map[*ssa.Function]bool{m.next: true}
+	for changed := true; changed; {
+		changed = false
+		for _, fn := range m.fns {
+			if nextOnly[fn] || fn.Parent() != nil {
+				continue
+			}
+			calls := callsTo(m.fns, fn)
+			all := len(calls) > 0
+			for _, ci := range calls {
+				all = all && nextOnly[ci.Parent()]
+			}
+			if all {
+				nextOnly[fn], changed = true, true
+			}
+		}
+	}
+	inNext, outside := 0, 0
+	for _, fn := range m.fns {
+		allInstrs(fn, func(in ssa.Instruction) {
+			fa, ok := in.(*ssa.FieldAddr)
+			if !ok {
+				return
+			}
+			n, name, _, _ := fieldOf(fa)
+			if n == nil || !sameNamed(n, m.T) || (name != "tokenCount" && name != "maxTokenLimit") {
+				return
+			}
+			// does a load of it reach a branch?
+			seen := map[ssa.Value]bool{}
+			var work []ssa.Value
+			for _, ref := range *fa.Referrers() {
+				if u, ok := ref.(*ssa.UnOp); ok && u.Op == token.MUL {
+					work = append(work, u)
+				}
+			}
+			var br ssa.Instruction
+			for len(work) > 0 && br == nil {
+				v := work[len(work)-1]
+				work = work[:len(work)-1]
+				if seen[v] {
+					continue
+				}
+				seen[v] = true
+				for _, ref := range *v.Referrers() {
+					switch x := ref.(type) {
+					case *ssa.If:
+						br = x
+					case *ssa.BinOp:
+						work = append(work, x)
+					case *ssa.UnOp:
+						work = append(work, x)
+					case *ssa.Phi:
+						work = append(work, x)
+					case *ssa.Convert:
+						work = append(work, x)
+					case *ssa.ChangeType:
+						work = append(work, x)
+					}
+				}
+			}
+			if br == nil {
+				return
+			}
+			root := fn
+			for root.Parent() != nil {
+				root = root.Parent()
+			}
+			if nextOnly[root] {
+				inNext++
+				return
+			}
+			outside++
+			r6.Fail(fa.Pos(), p.FuncName(fn), "branch on parser."+name+" outside the advance function", fmt.Sprintf("%s decides on parser.%s; the limit verdict must be a function of the number of tokens consumed alone, taken where they are consumed (%s): a second decision point makes the outcome depend on look-ahead state", p.FuncName(fn), name, nextName))
+		})
+	}
+	if inNext == 0 {
+		r6.AnchorLost("a branch on the counter or the limit in the advance function")
+	} else if outside == 0 {
+		r6.OK(fmt.Sprintf("%d reads of the counter/limit feed branches, all in %s or helpers called only from it", inNext, nextName), fmt.Sprintf("%d parser functions scanned", len(m.fns)))
+	}
 }
 
 func minI(a, b int64) int64 {
